@@ -1278,7 +1278,11 @@ class AstEval:
                                 return val
                     finally:
                         if handler.name is not None:
-                            del self.sym_table[handler.name]
+                            if isinstance(self.sym_table.get(handler.name), EvalLocalVar):
+                                # keep the variable, which inner functions might be bound to
+                                self.sym_table[handler.name].set_undefined()
+                            else:
+                                self.sym_table.pop(handler.name, None)
                     break
             else:
                 raise err
